@@ -312,6 +312,10 @@ func runC01(r *chk.Run) {
 	RunUnknownTypes(r)
 	// format descriptions of many server versions
 	RunServerVersions(r)
+	// events whose leading bytes take every value, through the packet reader
+	RunHeaderBytes(r)
+	// histories that are large in one dimension each
+	RunScale(r)
 	r.Validated(int64(ntcp))
 	r.Set("alphabet", alpha)
 	r.Set("depth", depth)
